@@ -229,7 +229,7 @@ func (c *ClusterNodes) parse(msgs string) (allNodes []*ClusterNode, err error) {
 			logging.Warnf("[cluster loop] skip redis node because the flag marked as noaddr or handshake, line: %+v", xs)
 			continue
 		}
-		if strings.Contains(xs[2], "fail") {
+		if hasFlag(xs[2], "fail") || hasFlag(xs[2], "fail?") {
 			logging.Warnf("[cluster loop] skip redis node because the flag marked as fail, line: %+v", xs)
 			continue
 		}
@@ -274,6 +274,17 @@ func (c *ClusterNodes) parse(msgs string) (allNodes []*ClusterNode, err error) {
 	}
 
 	return allNodes, nil
+}
+
+// hasFlag reports whether the comma separated flags column of a CLUSTER NODES line lists flag.
+// (A substring test is not enough: "nofailover" is not "fail".)
+func hasFlag(flags, flag string) bool {
+	for _, f := range strings.Split(flags, ",") {
+		if f == flag {
+			return true
+		}
+	}
+	return false
 }
 
 func (c *ClusterNodes) newClusterNode(line []string) (*ClusterNode, error) {
